@@ -354,8 +354,9 @@ def run_property(mod, tier, only=None, scale=1.0):
     extra = getattr(mod, "extra_evidence", None)
     if extra:
         ev["coverage"].update(extra())
-    os.makedirs(os.path.join(env.VERIF, "evidence"), exist_ok=True)
-    evpath = os.path.join(env.VERIF, "evidence", "%s.json" % pid)
+    evdir = os.path.join(env.VERIF, "evidence") if env.REPO == "/repo" else os.path.join(env.VERIF, "replays", "mutant_evidence")
+    os.makedirs(evdir, exist_ok=True)   # runs against a scratch tree (VERIF_REPO) never overwrite real evidence
+    evpath = os.path.join(evdir, "%s.json" % pid)
     with open(evpath, "w") as f:
         json.dump(ev, f, indent=1, sort_keys=True)
     print("%s %s seed=%d: %d cases (%d distinct non-trivial) in %.1fs, violations=%d known_hits=%d rc=%d" % (
